@@ -152,6 +152,36 @@ def guards_finalize(ctx, prog, need=("mismatch", "toolarge")):
                "%d Ok outcome(s) all controlled by the limit test" % len(oks) if dom_ok else "an Ok outcome is reachable without passing the size limit test", f.loc())
 
 
+def overflow_borders(ctx, prog):
+    """finalize (non-truncated, short output): OutputOverflow exactly when block hash 2 does not fit - `pieces > S2` before the pending
+    piece is considered, `pieces >= S2` when one more symbol (the pending piece, rolling value != 0) is to be appended.  One `>` and one
+    `>=`, against S2: the other way round refuses a hash that fits exactly, or writes one symbol past the capacity."""
+    from ..sym import path_conds, bool_atom, canon
+    R = "SA-GUARD"
+    f = prog.fn("Generator::finalize_raw_internal")
+    ctx.visit(f)
+    sy = Sym(f)
+    ov = G.blocks_returning_variant(f, sy, "Result::Err", "OutputOverflow")
+    rows = []
+    for b in ov:
+        cmp_ = None
+        pending = False
+        for c in path_conds(f, sy, b):
+            a = bool_atom(c)
+            if not a or a[0] == "truth":
+                continue
+            l_, r_ = canon(strip(a[1])), canon(strip(a[2]))
+            if a[0] in ("Gt", "Ge", "Lt", "Le") and (r_ == "S2" or l_ == "S2"):
+                op = a[0] if r_ == "S2" else {"Gt": "Lt", "Ge": "Le", "Lt": "Gt", "Le": "Ge"}[a[0]]
+                cmp_ = op
+            if a[0] == "Ne" and (const_value(strip(a[2])) == 0 or const_value(strip(a[1])) == 0) and ("value(" in l_ + r_ or "roll" in l_ + r_):
+                pending = True
+        rows.append((cmp_, pending))
+    ok = sorted(rows, key=str) == sorted([("Gt", False), ("Ge", True)], key=str)
+    ctx.ob(R, "finalize->Err(OutputOverflow): `pieces > S2` as stored, `pieces >= S2` when the pending piece is appended (rolling value != 0), nothing else", ok,
+           "overflow sites: %s" % rows, f.loc())
+
+
 def finalizers_delegate(ctx, prog):
     """every exported finaliser obtains its result from finalize_raw_internal"""
     R = "SA-DELEGATE"
